@@ -43,10 +43,11 @@ const GOLDEN: &[(&str, &[&str])] = &[
     // order of wallet / configuration / blockchain inside the gate is a listed finding -- not pinned)
     ("saito_wasm::saitowasm::create_transaction",
      &["A LSaito W", "A LWallet W", "C Transaction::create", "R LWallet", "R LSaito"]),
-    // saito-rust main.rs: wallet guard in its own block; configuration read as a temporary of the Context::new statement,
-    // released at its end; then configuration and blockchain guards to the end of the function
+    // saito-rust main.rs: wallet guard in its own block; the consensus configuration is read under one guard inside a
+    // block expression and released before Context::new (fix 9007b23); then configuration and blockchain guards
+    // to the end of the function
     ("saito_rust::main::run_utxo_to_issuance_converter",
-     &["A LWallet W", "R LWallet", "A LCfg R", "C Context::new", "R LCfg", "A LCfg R", "A LBlockchain W"]),
+     &["A LWallet W", "R LWallet", "A LCfg R", "R LCfg", "C Context::new", "A LCfg R", "A LBlockchain W", "R LBlockchain", "R LCfg"]),
 ];
 
 fn matches(e: &Ev, pat: &str, name: &dyn Fn(usize) -> String) -> bool {
